@@ -422,3 +422,24 @@ func mutate(t *rapid.T, m *mnode) string {
 	}
 	return kind
 }
+
+// encodePBRaw writes a dag-pb block by hand (links in the given order, which the go-codec-dagpb encoder would sort), so that
+// non-canonically ordered - but decodable - directory blocks can be stored.
+func encodePBRaw(links []LinkInfo, data []byte, hasData bool) []byte {
+	var b []byte
+	for _, l := range links {
+		var lb []byte
+		lb = wBytes(lb, 1, l.Cid.Bytes())
+		if l.Name != nil {
+			lb = wBytes(lb, 2, []byte(*l.Name))
+		}
+		if l.Tsize != nil {
+			lb = wVarint(wTag(lb, 3, 0), *l.Tsize)
+		}
+		b = wBytes(b, 2, lb)
+	}
+	if hasData {
+		b = wBytes(b, 1, data)
+	}
+	return b
+}
